@@ -388,7 +388,7 @@ def large_tree(rng, n, style):
     (None... then int, int... then str), by pre-order index = export row"""
     shape = large_shape(rng, n, style)
     keys = [k for k in LARGE_KEYS if rng.random() < 0.7] or ["late"]
-    t0 = {k: rng.randint(101, n - 1) for k in keys}
+    t0 = {k: rng.randint(min(101, n - 1), n - 1) for k in keys}
 
     def attrer(i):
         a = {}
